@@ -261,6 +261,33 @@ def run(rep, pdb, tier):
             acc = ctx.binds.get(e.target[1])
             ok = e.op == "+=" and _comm(e.value) == _comm(want) and r[1:5] == (num(0), lin_add(SIZE(NODES), num(-1)), False, False) and ctx.term(acc.init) == num(0)
         rep.add("trapezium-1d", rule, ok, fn["body"], "", where=loc(fn["body"]))
+    # ---- an early `return 0.0` of a quadrature is for a mesh without a cell only (fewer than two nodes in a direction)
+    for path_, dims_ in (("%s::trapezium" % M1F, (SIZE(NODES),)), ("%s::trapezium" % M2F, (NX, NY)), ("%s::square_trapezium" % M2F, (NX, NY))):
+        fq = pdb.fn(path_)
+        if fq is None:
+            continue
+        cq = Ctx.for_fn(pdb, fq)
+        bad_q = []
+
+        def no_cell(a_):
+            # dim < 2, dim <= 1, dim == 0, dim == 1 (either operand order)
+            if a_[0] != "cmp":
+                return False
+            op, l_, r_ = a_[1], a_[2], a_[3]
+            if l_ in dims_ and r_[0] == "num":
+                return (op == "<" and r_[1] <= 2) or (op == "<=" and r_[1] <= 1) or (op == "==" and r_[1] in (0, 1))
+            if r_ in dims_ and l_[0] == "num":
+                return op == "==" and l_[1] in (0, 1)
+            return False
+        for x in walk(fq["body"]):
+            if x.get("k") != "Ret" or any(a.get("k") == "Closure" for a in ancestors(x)):
+                continue
+            fs_ = facts(cq, x)
+            okq = x.get("e") is not None and cq.term(x["e"]) == num(0) and any(no_cell(f_) or (f_[0] == "or" and all(len(alt) >= 1 and any(no_cell(y) for y in alt) for alt in f_[1])) for f_ in fs_)
+            if not okq:
+                bad_q.append(x)
+        rep.add("quadrature-early-return/%s" % path_.rsplit("::", 1)[-1] + ("-1d" if dims_ == (SIZE(NODES),) else ""), "a quadrature returns early only with 0.0 and only for a mesh that has no cell (fewer than two nodes "
+                "in some direction): `nx <= 2` also drops the one-cell-wide mesh", not bad_q, bad_q[0] if bad_q else fq["body"], "early returns not justified by an empty mesh: %d" % len(bad_q))
     # ---- trapezium 2-D
     for name, sq in (("trapezium", False), ("square_trapezium", True)):
         fn = pdb.fn("%s::%s" % (M2F, name))
